@@ -31,18 +31,6 @@ thread_local! {
     static STATE: RefCell<AnchorState> = RefCell::new(AnchorState::default());
 }
 
-pub(crate) fn reset() {
-    STATE.with(|state| {
-        let mut s = state.borrow_mut();
-        s.stack.clear();
-        s.store.rc.clear();
-        s.store.arc.clear();
-        s.store.rc_recursive.clear();
-        s.store.arc_recursive.clear();
-        s.in_progress.clear();
-    });
-}
-
 pub(crate) fn with_anchor_context<R>(
     kind: AnchorKind,
     anchor: Option<usize>,
@@ -245,14 +233,19 @@ pub(crate) fn get_arc_recursive<T: Any + Send + Sync>(id: usize) -> Result<Optio
 }
 
 pub(crate) fn with_document_scope<R>(f: impl FnOnce() -> R) -> R {
-    reset();
-    struct ResetGuard;
-    impl Drop for ResetGuard {
+    // Every document gets a clean state of its own. The previous state is put back afterwards
+    // (also on unwind), so a parse started from inside a user `Deserialize` impl cannot wipe
+    // the anchors of the document that is still being read by the outer call.
+    struct RestoreGuard(Option<AnchorState>);
+    impl Drop for RestoreGuard {
         fn drop(&mut self) {
-            reset();
+            if let Some(previous) = self.0.take() {
+                STATE.with(|state| *state.borrow_mut() = previous);
+            }
         }
     }
-    let guard = ResetGuard;
+    let previous = STATE.with(|state| std::mem::take(&mut *state.borrow_mut()));
+    let guard = RestoreGuard(Some(previous));
     let result = f();
     drop(guard);
     result
